@@ -306,6 +306,17 @@ class FSign:
                     other = den[2][1] if den[2][0] == a[0] else den[2][0]
                     if self.rng(a[0]).nonneg() and self.rng(other).nonneg() and not self.rng(den).contains_zero():
                         return Iv(0.0, 1.0)
+                # (a - m) / (M - m) with m <= a <= M and M > m lies in [0, 1]; a constant factor on the numerator scales it
+                num, scale = a[0], 1.0
+                if num[0] == 'op' and num[1] == 'mul' and any(z[0] == 'lit' and isinstance(z[1], (int, float)) for z in num[2]):
+                    lits = [z for z in num[2] if z[0] == 'lit']
+                    rest = [z for z in num[2] if z[0] != 'lit']
+                    if len(lits) == 1 and len(rest) == 1 and float(lits[0][1]) >= 0:
+                        num, scale = rest[0], float(lits[0][1])
+                if num[0] == 'op' and num[1] == 'sub' and den[0] == 'op' and den[1] == 'sub' and num[2][1] == den[2][1]:
+                    top_minus = op('sub', den[2][0], num[2][0])
+                    if self.rng(num).nonneg() and self.rng(top_minus).nonneg() and self.rng(den).positive():
+                        return Iv(0.0, scale)
                 x, y = self.rng(a[0]), self.rng(a[1])
                 if y.contains_zero():
                     return TOPI
